@@ -123,7 +123,12 @@ def _split_number(num):
         # binary floats are exact dyadic rationals (e.g. 0.5 in definitions)
         fr = Fraction(float(num))
         if fr.denominator > 1 << 20:
-            raise Unsupported(f"float {num!r}")
+            # e.g. 1/6 written as a float in a definition: the library itself
+            # converts prefactors with nsimplify(rational=True)
+            r = sympy.nsimplify(num, rational=True)
+            if not r.is_Rational or abs(float(r) - float(num)) > 1e-12:
+                raise Unsupported(f"float {num!r}")
+            fr = Fraction(int(r.p), int(r.q))
         return fr, []
     if isinstance(num, Pow) and num.args[1] in (S.Half, -S.Half) \
             and num.args[0].is_Integer and num.args[0] > 0:
